@@ -30,7 +30,7 @@ class C09(GProp):
     files = ['tephra-combinator/src/control.rs', 'tephra-combinator/src/alt.rs', 'tephra/src/context.rs', 'tephra-combinator/src/list.rs']
     rule = ('seeded random sequences q1; probe; q2; probe; ...; P with each qi a succeeding or failing sub-parser optionally wrapped in '
             'maybe / unrecoverable / raw / require_if / implies / cond_implies / filter_with / unfiltered / stabilize / a user '
-            'context push, P a recovering parser, 0-3 transforms pushed on the context, on random texts; after every wrapper a '
+            'context push (and a family with a recover state carried into a stabilize that gives up without progress under an alternative or an enclosing recovery), P a recovering parser, 0-3 transforms pushed on the context, on random texts; after every wrapper a '
             'probe error is sent through the enclosing context: it must reach the sink carrying exactly the pushed transforms, the '
             'returned lexer must have the filter it started with, and P\'s value/remaining stream/diagnostics must be those of the '
             'python reference (in which wrappers have no effect on their siblings); non-trivial = >= 2 wrappers of different kinds '
@@ -53,6 +53,14 @@ class C09(GProp):
                 elif k2 == 2: wq = wrap(r.choice(WRAPS), wq, r)
                 parts.append(wq)
                 parts.append(['probe', j + 1])
+            if i % 6 == 5:
+                # a recover state carried into a stabilize whose retry makes no progress, the failure absorbed by an alternative
+                # or an enclosing recovery that shares the context: every return path of stabilize must leave the context alone
+                first = [r.choice(['recover', 'recoverdef']), r.choice([['before', 'Semi'], ['beforeany', 'Semi', 'Comma']]), ['one', 'A']]
+                stq = ['stabilize', r.choice([['one', 'B'], ['seq', 'A', 'B'], ['one', 'C']])]
+                absorb = r.choice([['either', stq, 'empty'], ['either', stq, 'empty'], ['recoverdef', ['before', 'Semi'], stq],
+                                   ['either', ['both', stq, ['one', 'A']], ['maybe', ['one', 'Semi']]]])
+                parts = [first, ['probe', 1], absorb, ['probe', 2]]
             P = r.choice([['recoverdef', ['before', 'Semi'], ['one', 'A']], ['recover', ['after', 'Semi'], ['seq', 'A', 'B']],
                           ['listdef', ['one', 'A'], 'Comma', ['Semi']], ['stabilize', ['recoverdef', ['before', 'Semi'], ['one', 'B']]]])
             parts.append(P)
